@@ -40,6 +40,7 @@ without it a stale entry is served.
 NOT proved (correspondence only): that `DropNotFlushed` restores the vector/branch tables of the
 real index to the state of the shorter history (the model's "roll back" is by definition the index
 of the prefix); that the ids of the real code are consistent is the injective sampler of C04.
+Combined model (`Model/Indexed.lean`: a `buildIndexed` or a rejected `processIndexed`, anywhere in a log of calls, returns literally the previous (Orderer, index, indexing order) state, so all later answers are equal — by construction of the model's transaction): `Consensus.indexed_no_trace`, `Consensus.processIndexed_rejected` (Props/Consensus.lean).
 -/
 namespace C07
 open Model.FcCache
